@@ -499,6 +499,10 @@ def run(tier_name=None, replay=None):
     def do_laws():
         try:
             laws["res"] = judge.run_laws("Choice", workers=4)
+            # cross-layer law: the Choice rule language of the protocol model (EngineChoice!RuleHolds) agrees with Choice!Eval
+            ok2, st2, tail2 = judge.run_laws("EngineChoice", workers=2)
+            if not ok2:
+                laws["res"] = (False, laws["res"][1], "cross-layer law MC_EngineChoice fails: " + tail2)
         except Exception as ex:        # reported below as a machinery failure
             laws["exc"] = ex
     import multiprocessing
